@@ -573,6 +573,10 @@ func (s *Sys) fireFaults() bool {
 				due = len(d.Log) >= f.N
 				d.mu.Unlock()
 			}
+		case "after-write":
+			// right after the N-th executed write of one kind (Target holds "<primitive>/<rpc>", e.g. proposals/insert: between
+			// the creations of the proposals of one multi-target transaction)
+			due = s.RT.KindCount[f.Target] >= f.N
 		case "during-devset":
 			// while the device's N-th (or a later) Set is in flight
 			if d := s.Devs[f.Target]; d != nil {
@@ -633,7 +637,7 @@ func (s *Sys) fireFaults() bool {
 			s.Devs[f.Target].Faults[f.N] = DevFault{Kind: "apply-then-drop"}
 		case "op-unavail", "op-acklost":
 			n := f.N
-			if f.On == "after-devset" || f.On == "during-devset" {
+			if f.On == "after-devset" || f.On == "during-devset" || f.On == "after-write" {
 				// relative: the Burst-th Atomix write from now on
 				n = s.RT.Writes + 1 + f.Burst
 			}
